@@ -171,7 +171,15 @@ func stat(ms []bal.Mem, ts []bal.Topic) {
 		}
 	}
 	claimed := map[string]int{}
+	dupSub := false
 	for _, m := range ms {
+		seenT := map[string]bool{}
+		for _, t := range m.Subs {
+			if seenT[t] {
+				dupSub = true
+			}
+			seenT[t] = true
+		}
 		if m.Rack != nil {
 			mracks++
 		}
@@ -224,6 +232,9 @@ func stat(ms []bal.Mem, ts []bal.Topic) {
 	}
 	if away > 0 {
 		hx.St.Inc("kfake_with_away_member")
+	}
+	if dupSub {
+		hx.St.Inc("subscription_lists_topic_twice")
 	}
 }
 
